@@ -839,6 +839,9 @@ func (c *evalCtx) callExpr(n *ECall) EV {
 		case "fresh":
 			a := c.eval(n.Args[0])
 			return boolEV(cx.Op(">=", smt.Bool, a.V.Terms[0], c.old.Alloc))
+		case "allocated": // allocated(x): the object x exists in the state the clause is evaluated in (its reference is below the allocation counter)
+			a := c.eval(n.Args[0])
+			return boolEV(cx.Op("<", smt.Bool, a.V.Terms[0], c.st.Alloc))
 		case "ite":
 			cond := c.boolean(n.Args[0], "ite condition")
 			a, b := c.eval(n.Args[1]), c.eval(n.Args[2])
@@ -852,6 +855,13 @@ func (c *evalCtx) callExpr(n *ECall) EV {
 				b = c.litTo(b.Lit, a.V.Typ, false)
 			}
 			return EV{V: e.mergeVals([]*smt.Term{cond, cx.Not(cond)}, []Val{a.V, b.V})}
+		case "implements": // implements(x, I): the dynamic type of the interface value x implements interface I (x non-nil)
+			a := c.eval(n.Args[0])
+			t := c.eval(n.Args[1]).Type
+			if t == nil || !isInterface(t) || !isInterface(a.V.Typ) {
+				c.fail("implements needs an interface value and an interface type")
+			}
+			return boolEV(cx.And(cx.Not(cx.Eq(a.V.Terms[0], cx.IntLit(0))), e.implements(a.V.Terms[0], t)))
 		case "typeis":
 			a := c.eval(n.Args[0])
 			t := c.eval(n.Args[1]).Type
